@@ -23,6 +23,8 @@ type seg struct {
 }
 
 type frag struct {
+	Key string          `json:"key,omitempty"`
+	Sub string          `json:"sub,omitempty"`
 	F  string           `json:"f"`
 	Ty string           `json:"ty,omitempty"`
 	V  string           `json:"v,omitempty"`
@@ -39,11 +41,13 @@ func (f *frag) UnmarshalJSON(b []byte) error {
 		M  json.RawMessage   `json:"m"`
 		L  []json.RawMessage `json:"l"`
 		H  int               `json:"h"`
+		Key string           `json:"key"`
+		Sub string           `json:"sub"`
 	}
 	if err := json.Unmarshal(b, &raw); err != nil {
 		return err
 	}
-	f.F, f.Ty, f.V, f.H = raw.F, raw.Ty, raw.V, raw.H
+	f.F, f.Ty, f.V, f.H, f.Key, f.Sub = raw.F, raw.Ty, raw.V, raw.H, raw.Key, raw.Sub
 	if len(raw.M) > 0 && raw.M[0] == '{' {
 		if err := json.Unmarshal(raw.M, &f.M); err != nil {
 			return err
@@ -101,6 +105,15 @@ func (f *frag) build(hs []*ucfg.Config) interface{} {
 		return nil
 	case "cfg":
 		return hs[f.H-1]
+	case "cs":
+		// ordered struct: the embedded config first, then a dotted sibling that lands inside it
+		st := reflect.New(reflect.StructOf([]reflect.StructField{
+			{Name: "F0", Type: reflect.TypeOf((*ucfg.Config)(nil)), Tag: reflect.StructTag(`config:"` + f.Key + `"`)},
+			{Name: "F1", Type: reflect.TypeOf(""), Tag: reflect.StructTag(`config:"` + f.Key + "." + f.Sub + `"`)},
+		})).Elem()
+		st.Field(0).Set(reflect.ValueOf(hs[f.H-1]))
+		st.Field(1).SetString(f.V)
+		return st.Interface()
 	case "m":
 		m := map[string]interface{}{}
 		for k, v := range f.M {
@@ -131,6 +144,8 @@ func storeErr(err error) string {
 		return "err:index"
 	case ucfg.ErrTypeMismatch:
 		return "err:type"
+	case ucfg.ErrDuplicateKey:
+		return "err:duplicate"
 	}
 	if e.Reason() == nil {
 		return "err:noreason"
@@ -638,7 +653,7 @@ func fragEmbeds(f *frag, out map[int]bool) {
 	if f == nil {
 		return
 	}
-	if f.F == "cfg" {
+	if f.F == "cfg" || f.F == "cs" {
 		out[f.H] = true
 	}
 	for _, c := range f.M {
